@@ -500,6 +500,23 @@ func runMuxSchedule(kinds string, evs []string) (string, error) {
 			}
 		}()
 	}
+	if !blocking {
+		// schedules in which the server pushes nothing run with a registered channel that is FULL for good
+		// (unbuffered, nobody receiving – a consumer that is busy elsewhere): in the default non-blocking
+		// mode whatever the reader wants to hand over then – its "connection lost" notice – is dropped,
+		// and must never hold the reader up
+		noPush := true
+		for _, e := range evs {
+			if strings.HasPrefix(e, "f:") {
+				if p := strings.Split(e, ":"); len(p) >= 3 && strings.Contains(p[2], "q") {
+					noPush = false
+				}
+			}
+		}
+		if noPush {
+			pushCh = make(chan *protocol.Message)
+		}
+	}
 	cl.RegisterServerMessageChan(pushCh)
 	if err := cl.Connect("verifrig", "x"); err != nil {
 		return "", err
